@@ -14,6 +14,8 @@ ENTRIES = [
     dict(name="Vector.fit: all components get the full weights", rule="R3", file=V, old="estimator.fit(coordinates, data_comp, weight_comp)", new="estimator.fit(coordinates, data_comp, weights)"),
     dict(name="Vector.fit: data reversed", rule="R3", file=V, old="zip(self.components, data, weights)", new="zip(self.components, data[::-1], weights)"),
     dict(name="Vector.fit: data and weights swapped in the call", rule="R3", file=V, old="estimator.fit(coordinates, data_comp, weight_comp)", new="estimator.fit(coordinates, weight_comp, data_comp)"),
+    dict(name="Vector.fit: unpack=True again (F9 reintroduced)", rule="R3", file=V, old="coordinates, data, weights = check_fit_input(coordinates, data, weights, unpack=False)\n        self.region_ = get_region(coordinates[:2])\n        for estimator",
+         new="coordinates, data, weights = check_fit_input(coordinates, data, weights)\n        self.region_ = get_region(coordinates[:2])\n        for estimator"),
     dict(name="Vector.predict: reversed components", rule="R3", file=V, old="for comp in self.components))", new="for comp in reversed(self.components)))"),
     dict(name="filter: pred - data", rule="R4", file=B, old=RES, new="residuals = tuple((predi.reshape(datai.shape) - datai for datai, predi in zip(data, pred)))"),
     dict(name="filter: data + pred", rule="R4", file=B, old=RES, new="residuals = tuple((datai + predi.reshape(datai.shape) for datai, predi in zip(data, pred)))"),
